@@ -32,7 +32,7 @@ var c16 = core.Register(&core.Prop{
 	Shards: func(tier string) int { return pickTier(tier, 8, 16) },
 	Floors: func(c map[string]int64, tier string) []string {
 		var out []string
-		for _, k := range []string{"paths_checked", "null_results", "assert_errors", "number_results", "identity_results", "builtin_names", "typed_map_zero_entries", "struct_fields", "no_map_cases", "missing_field_errors", "null_equalities", "two_read_cases"} {
+		for _, k := range []string{"paths_checked", "null_results", "assert_errors", "number_results", "identity_results", "builtin_names", "typed_map_zero_entries", "struct_fields", "no_map_cases", "missing_field_errors", "null_equalities", "two_read_cases", "byte_slice_results"} {
 			if c[k] == 0 {
 				out = append(out, "coverage floor: no "+k)
 			}
@@ -345,8 +345,11 @@ var c16Path = core.Mon(c16, "lookup", func(w *core.W, c *PathCase) {
 		if !ok || !t.Equal(bt) || t.Location() != bt.Location() {
 			w.Violation("lookup", "C16/time", c, fmt.Sprint(bt), show(el), src)
 		}
-	case "list", "emptylist", "strs", "ints", "f64s", "maps", "map", "mapsi", "mapss", "mapsb", "mapsf", "mapis", "dec", "fn", "pstruct", "pint":
+	case "list", "emptylist", "strs", "ints", "f64s", "maps", "map", "mapsi", "mapss", "mapsb", "mapsf", "mapis", "dec", "fn", "pstruct", "pint", "bytes":
 		w.Count("identity_results")
+		if spec.K == "bytes" {
+			w.Count("byte_slice_results")
+		}
 		if !samePointer(el, built) {
 			w.Violation("lookup", "C16/identity:"+spec.K, c, "the caller's own "+spec.K, show(el), "containers, functions and numbers supplied by the caller are handed on unchanged: "+src)
 		}
@@ -459,13 +462,16 @@ func c16Data(r *rand.Rand) val.V {
 		{K: "__p", V: val.Int("int", 2)}, {K: "___p", V: val.Int("int", 3)}, {K: "_p", V: val.Map(val.KV{K: "__p", V: val.Str("deep")}, val.KV{K: "___p", V: val.Str("deeper")})},
 		{K: "lk", V: val.Map(val.KV{K: longKeyA, V: val.Int("int", 3)}, val.KV{K: longKeyB, V: val.Int("int", 4)})},
 		{K: "l", V: val.List(val.Int("int", 1), val.Str("x"))}, {K: "ss", V: val.Typed("strs", val.Str("p"), val.Str("q"))}, {K: "d", V: val.Dec("1.50")}, {K: "fn", V: val.Fn("id")},
+		// byte slices (text columns of database drivers) are slices like any other
+		{K: "by", V: val.V{K: "bytes", S: []string{"abc", "12", "true", "\xff\xfe", "null", "2024-01-02"}[r.Intn(6)]}},
+		{K: "byw", V: val.Map(val.KV{K: "k", V: val.V{K: "bytes", S: "text"}}, val.KV{K: "z", V: val.V{K: "bytes", S: "7"}})},
 	}
 	return val.Map(kv...)
 }
 
 var longKeyA, longKeyB = strings.Repeat("k", 299) + "a", strings.Repeat("k", 299) + "b"
 
-var c16Keys = []string{longKeyA, longKeyB, longKeyA[:299], "__p", "___p", "_p", "Context", "Precision", "wall", "loc", "null", "true", "false", "this", "ctx", "typeof", "kw", "Qty", "Price", "Note", "City", "Floor", "Name", "Age", "p", "a", "b", "c", "k", "z", "name", "x1", "len", "max", "now", "A", "S", "F", "M", "P", "Any", "Nil", "N", "T", "priv", "Zz", "missing", "tm", "st", "np", "$v"}
+var c16Keys = []string{longKeyA, longKeyB, longKeyA[:299], "__p", "___p", "_p", "Context", "Precision", "wall", "loc", "null", "true", "false", "this", "ctx", "typeof", "kw", "Qty", "Price", "Note", "City", "Floor", "Name", "Age", "p", "a", "b", "c", "k", "z", "name", "x1", "len", "max", "now", "A", "S", "F", "M", "P", "Any", "Nil", "N", "T", "priv", "Zz", "missing", "tm", "st", "np", "$v", "by", "byw"}
 
 // FollowCase: a name denotes the entry of the data map as it is now - whatever earlier evaluations on the same runner
 // read or assigned, and however the host changed the map since (another map, a single entry, its own map directly).
